@@ -286,7 +286,8 @@ def round_trip(cfg, env, fac, eq, out_mod, extra_globals):
                            for x in b])
         pas.append(pa)
         specs.append(sp)
-    sd = dict(t=env.val("r:sd_t"), dt=env.val("r:sd_dt"), count=7)
+    sd = {} if cfg.get("empty_sd") else \
+        dict(t=env.val("r:sd_t"), dt=env.val("r:sd_dt"), count=7)
     fname = cfg["fname"]
     try:
         out_mod.dump(fname, pas, dict(sd),
@@ -316,7 +317,7 @@ def round_trip(cfg, env, fac, eq, out_mod, extra_globals):
                                                                sd[k]))
             elif r is None:
                 unk.append("solver data %s" % k)
-    if set(data["arrays"]) != set(sp.name for sp in specs):
+    if set(data["arrays"]) != set(sp_.name for sp_ in specs):
         bad.append("arrays %s, dumped %s" % (sorted(data["arrays"]),
                                             [sp.name for sp in specs]))
     if bad:
@@ -390,6 +391,13 @@ def configs(tier):
                             arrays=lay, fmt=fmt, detailed=detailed,
                             only_real=only_real, compress=compress,
                             fname="out_10." + fmt))
+    # boundary cases: no solver data, no particle arrays
+    for fmt in ("npz", "hdf5"):
+        out.append(dict(arrays=[("plain", 2)], fmt=fmt, detailed=False,
+                        only_real=True, compress=False, empty_sd=True,
+                        fname="out_10." + fmt))
+        out.append(dict(arrays=[], fmt=fmt, detailed=False, only_real=True,
+                        compress=False, fname="out_10." + fmt))
     return out
 
 
@@ -440,8 +448,9 @@ def unit_roundtrip(cfgs, deadline_s=600):
     common.use_repo_with_build()
     import pysph.solver.output as OUT
     stats = Stats()
-    out = dict(unit="dump/load %s %s (%d option combinations)" % (
-        cfgs[0]["fmt"], cfgs[0]["arrays"], len(cfgs)),
+    out = dict(unit="dump/load %s %s%s (%d option combinations)" % (
+        cfgs[0]["fmt"], cfgs[0]["arrays"],
+        " no solver data" if cfgs[0].get("empty_sd") else "", len(cfgs)),
         obligations=0, discharged=0, undecided=[])
     fac = c06.lowered_factory()
     findings = common.load_findings(PID)
@@ -609,7 +618,8 @@ def main():
     cfgs = configs(t)
     groups = {}
     for c in cfgs:
-        groups.setdefault((c["fmt"], repr(c["arrays"])), []).append(c)
+        groups.setdefault((c["fmt"], repr(c["arrays"]),
+                           bool(c.get("empty_sd"))), []).append(c)
     units = [("vf.props.c11", "unit_env_conformance", {})]
     for k, v in groups.items():
         units.append(("vf.props.c11", "unit_roundtrip",
